@@ -1012,8 +1012,19 @@ def solve(objfun, x0, h=None, lh=None, prox_uh=None, argsf=(), argsh=(), argspro
     default_growing_method_set_by_user = user_params is not None and \
         ('growing.full_rank.use_full_rank_interp' in user_params or 'growing.perturb_trust_region_step' in user_params)
 
+    exit_info = None
+    # Check the shapes first: the scaling below combines x0, xl and xu
+    if exit_info is None and np.shape(x0) != (n,):
+        exit_info = ExitInformation(EXIT_INPUT_ERROR, "x0 must be a vector")
+
+    if exit_info is None and np.shape(x0) != np.shape(xl):
+        exit_info = ExitInformation(EXIT_INPUT_ERROR, "lower bounds must have same shape as x0")
+
+    if exit_info is None and np.shape(x0) != np.shape(xu):
+        exit_info = ExitInformation(EXIT_INPUT_ERROR, "upper bounds must have same shape as x0")
+
     scaling_changes = None
-    if scaling_within_bounds:
+    if exit_info is None and scaling_within_bounds:
         shift = xl.copy()
         scale = xu - xl
         scaling_changes = (shift, scale)
@@ -1022,7 +1033,6 @@ def solve(objfun, x0, h=None, lh=None, prox_uh=None, argsf=(), argsh=(), argspro
     xl = apply_scaling(xl, scaling_changes)
     xu = apply_scaling(xu, scaling_changes)
 
-    exit_info = None
     # Input & parameter checks
     if exit_info is None and h is not None:
         if prox_uh is None:
@@ -1046,15 +1056,6 @@ def solve(objfun, x0, h=None, lh=None, prox_uh=None, argsf=(), argsh=(), argspro
 
     if exit_info is None and maxfun <= 0:
         exit_info = ExitInformation(EXIT_INPUT_ERROR, "maxfun must be strictly positive")
-
-    if exit_info is None and np.shape(x0) != (n,):
-        exit_info = ExitInformation(EXIT_INPUT_ERROR, "x0 must be a vector")
-
-    if exit_info is None and np.shape(x0) != np.shape(xl):
-        exit_info = ExitInformation(EXIT_INPUT_ERROR, "lower bounds must have same shape as x0")
-
-    if exit_info is None and np.shape(x0) != np.shape(xu):
-        exit_info = ExitInformation(EXIT_INPUT_ERROR, "upper bounds must have same shape as x0")
 
     if exit_info is None and np.min(xu - xl) < 2.0 * rhobeg:
         exit_info = ExitInformation(EXIT_INPUT_ERROR, "gap between lower and upper must be at least 2*rhobeg")
